@@ -36,11 +36,7 @@ Definition maprange_table : list (site * mr_class) := [
   (("internal/driver/cli.go", "parseFlags", "pprofCommands", 1), MRFill);         (* registers one flag per command *)
   (("internal/driver/commands.go", "usage", "pprofCommands", 1), MRSorted "strings");
   (("internal/driver/config.go", "completeConfig", "configFieldMap", 1), MROutOfScope);   (* readline completion *)
-<<<<<<< HEAD
-  (("internal/driver/driver.go", "identifyNumLabelUnits", "ignoredUnits", 1), MRSorted "strings");   (* fix 609811b (F40): keys collected, sorted, then printed *)
-=======
   (("internal/driver/driver.go", "identifyNumLabelUnits", "ignoredUnits", 1), MRSorted "strings");   (* keys sorted before the warnings are printed (fix 609811b, F40) *)
->>>>>>> w/C08f
   (("internal/driver/driver_focus.go", "compileTagFilter", "s.Label", 1), MRSearch);
   (("internal/driver/driver_focus.go", "compileTagFilter", "s.NumLabel", 1), MRSearch);
   (("internal/driver/driver_focus.go", "compileTagFilter", "vals", 1), MRNotMap);
